@@ -24,6 +24,10 @@ var VariablesInAllowedPositionRule = Rule{
 					tmp.NonNull = false
 				}
 			}
+			// The same holds when the argument or input field has a default of its own.
+			if value.ExpectedTypeHasDefault && value.ExpectedType.NonNull {
+				tmp.NonNull = false
+			}
 
 			if !value.VariableDefinition.Type.IsCompatible(&tmp) {
 				addError(
